@@ -215,8 +215,8 @@ def evaluate(ctx_col, found, items, sep, par, order, day00, extra_sep, names=('r
             f2 = run_relation(name, sub, sep, par, morder, day00, extra_sep)
             if f2 is None:
                 paren_cause = True
-            else:
-                mitems, f = sub, f2
+            else:       # the parentheses are not the cause: go on with the parenthesis-free mapping
+                mitems, morder, f = minimise(name, sub, sep, par, morder, day00, extra_sep, f2)
                 function, observed, expected, site, relation = f
         diag = 'value contains parenthesis' if paren_cause else diagnose(mitems, sep, f, name, morder)
         if paren_cause:
